@@ -137,7 +137,7 @@ fn gen_regular_struct(
                 ));
             }
 
-            next_id = item_options.id() + 1;
+            next_id = item_options.id().wrapping_add(1);
 
             let (field_layout, field_references) = gen_field(field, index, options, &item_options);
 
@@ -289,7 +289,7 @@ fn gen_enum(
             ));
         }
 
-        next_id = item_options.id() + 1;
+        next_id = item_options.id().wrapping_add(1);
 
         let (var_layout, var_references) = gen_variant(variant, options, &item_options)?;
 
